@@ -7,6 +7,7 @@ import PugModel.Driver.C09
 import PugModel.Driver.C16
 import PugModel.Driver.C10
 import PugModel.Driver.C19
+import PugModel.Driver.C14
 /-!
 `pvd`: the model driver. One JSON case per line on stdin (the line the harness produced, with the
 implementation's answer merged in under "impl" for the cases whose model is relative to measured
@@ -24,6 +25,7 @@ def dispatch (c : Json) : Json × Json :=
   | "gopath" => runGoPath c
   | "gate" => runGateCase c
   | "startup" => runStartupCase c
+  | "strip" => runStripCase c
   | "asset" => runAssetCase c
   | "clean" => runCleanCase c
   | "loadseq" => runLoadSeqCase c
